@@ -730,8 +730,10 @@ func TestC09(t *testing.T) {
 			} else if f[2] == "srvstop" {
 				ks := strings.TrimPrefix(f[3], "k")
 				slow := strings.HasSuffix(ks, "s")
-				k, _ := strconv.Atoi(strings.TrimSuffix(ks, "s"))
-				fmt.Fprintln(w, runServerStop(f[1], k, slow))
+				appClose := strings.HasSuffix(ks, "c")
+				sweepBusy := strings.HasSuffix(ks, "i") && f[1] == "udp"
+				k, _ := strconv.Atoi(strings.TrimRight(ks, "sci"))
+				fmt.Fprintln(w, runServerStop(f[1], k, slow, appClose, sweepBusy))
 			} else {
 				fmt.Fprintln(w, runCase(t, f[1], f[2], f[3], f[4]))
 			}
